@@ -7,7 +7,7 @@ use std::task::Poll;
 use std::time::Duration;
 
 use nexosim::model::{BuildContext, Context, InitializedModel, Model, ProtoModel};
-use nexosim::ports::{EventBuffer, EventSlot, EventSource, Output, QuerySource, Requestor, UniRequestor};
+use nexosim::ports::{EventBuffer, EventSink, EventSinkWriter, EventSlot, EventSource, Output, QuerySource, Requestor, UniRequestor};
 use nexosim::simulation::{ActionKey, Address, Mailbox, SchedulingError, SimInit};
 use nexosim::time::{Clock, MonotonicTime, SyncStatus};
 
@@ -174,6 +174,10 @@ pub struct Node {
     /// Miri reports under E2.
     plain: u64,
     addrs: Vec<Address<Node>>,
+    /// Writers of the bench's sinks (for connections made at run time).
+    sinkw: Vec<SinkW>,
+    /// Connection ids of the sink connections already made at run time (each is made once).
+    sink_cids: Vec<u32>,
     _tok: Tok,
 }
 
@@ -439,6 +443,23 @@ impl Node {
                     ctx.log(Ev::Note(format!("connect node={} port={} target={} cid={}", self.idx, port, target, cid)));
                 }
             }
+            Op::Connect { port, target, cid } if target >= 10_000 => {
+                let s = (target - 10_000) as usize;
+                if (port as usize) < self.outs.len() && s < self.sinkw.len() && !self.sink_cids.contains(&cid) {
+                    self.sink_cids.push(cid);
+                    let c = ctx.clone();
+                    let sink = s as u16;
+                    let log = move |x: &Msg| {
+                        c.log(Ev::SinkWrite { sink, msg: x.id, via: cid, salt: x.salt });
+                        x.with_via(cid)
+                    };
+                    match &self.sinkw[s] {
+                        SinkW::Buffer(w) => self.outs[port as usize].map_connect_sink(log, &WSink(w.clone())),
+                        SinkW::Slot(w) => self.outs[port as usize].map_connect_sink(log, &WSink(w.clone())),
+                    }
+                    ctx.log(Ev::Note(format!("connect node={} port={} target={} cid={}", self.idx, port, target, cid)));
+                }
+            }
             Op::Connect { port, target, cid } => {
                 if (port as usize) < self.outs.len() && (target as usize) < self.addrs.len() {
                     let addr = self.addrs[target as usize].clone();
@@ -640,6 +661,21 @@ pub enum Sink {
     Slot(EventSlot<Msg>),
 }
 
+/// Writer side of a bench sink, held by a model that connects it to one of its outputs at run time.
+pub enum SinkW {
+    Buffer(<EventBuffer<Msg> as EventSink<Msg>>::Writer),
+    Slot(<EventSlot<Msg> as EventSink<Msg>>::Writer),
+}
+
+/// An `EventSink` that hands out clones of an existing writer.
+struct WSink<W>(W);
+impl<W: EventSinkWriter<Msg>> EventSink<Msg> for WSink<W> {
+    type Writer = W;
+    fn writer(&self) -> W {
+        self.0.clone()
+    }
+}
+
 pub enum Source {
     Event(EventSource<Msg>),
     Query(QuerySource<Msg, Reply>),
@@ -823,6 +859,12 @@ pub fn build(case: &Arc<Case>, ctx: &Arc<ExecCtx>) -> Bench {
             invocations: 0,
             plain: 0,
             addrs: if needs_addrs { addrs.clone() } else { Vec::new() },
+            sinkw: if spec.on.iter().flatten().chain(spec.init.iter()).any(|o| matches!(o, Op::Connect { target, .. } if *target >= 10_000)) {
+                sinks.iter().map(|s| match s { Sink::Buffer(b) => SinkW::Buffer(b.writer()), Sink::Slot(b) => SinkW::Slot(b.writer()) }).collect()
+            } else {
+                Vec::new()
+            },
+            sink_cids: Vec::new(),
             _tok: Tok::new(ctx, TokKind::Model),
         }));
     }
